@@ -12,6 +12,7 @@ from ..core import cz, clist
 from ..runner import Entry, differential
 from . import c13_geom as g
 from . import c13_translate as tr
+from . import c13_gen as gen_terms
 
 PRE = ("From Coq Require Import QArith PrimFloat.\nFrom EsVerif.Common Require Import Base.\n"
        "From EsVerif.C13 Require Import Model Spec Exec FloatModel ExecF ExecTie MoreModel.\nOpen Scope Z_scope.\n")
@@ -182,7 +183,7 @@ class Ids(C13Entry):
             cs.append({"pts": pts, "how": how, "family": "integer-dtype"})
         # long arrays: 2^k + 1 points (fewer depths, so that the case file stays small)
         if round == 0:
-            for n, md in ((ctx.n(2 ** 10 + 1, 2 ** 12 + 1), 4), (ctx.n(2 ** 12 + 1, 2 ** 14 + 1), 1)):
+            for n, md in ((ctx.n(2 ** 10 + 1, 2 ** 12 + 1), 4), (ctx.n(2 ** 12 + 1, 2 ** 15 + 1), 1)):
                 pts = [list(g.position(r, fams[j % len(fams)])) for j in range(n)]
                 cs.append({"pts": pts, "how": r.choice(["f8", "strided", "be"]), "family": "long-array", "maxdepth": md})
         return cs
@@ -1047,8 +1048,16 @@ class Sequence(C13Entry):
                 env.copy = bool(st.get("copy"))
                 ENV[0] = env
                 o = ent.impl(st["case"])
+                try:
+                    alias = self._alias_probe(st, env)
+                except Exception as e:  # noqa  (a valid call raised: a failing input of this step)
+                    alias = "the repeated call raised %s: %s" % (type(e).__name__, str(e)[:150])
                 ENV[0] = FreshEnv()
                 o2 = ent.impl(st["case"])
+                if alias is not None:
+                    o = ("err", "EOther", "step %d (%s): %s" % (k, st["op"], alias))
+                    outs.append(o)
+                    continue
                 if key(o) != key(o2):
                     o = ("err", "EOther", "step %d (%s) depends on the calls made before it: on the reused HTM object/arrays it returned "
                          "something else than on a fresh HTM object with fresh arrays" % (k, st["op"]), {"reused": o, "fresh": o2})
@@ -1058,6 +1067,48 @@ class Sequence(C13Entry):
         out = ("ok", outs)
         self.remember(c, out)
         return out
+
+    @staticmethod
+    def _alias_probe(st, env):
+        """ownership of results: the caller overwrites a RETURNED array and calls again with the same arguments on the same object;
+        the second answer must be the first one (no result buffer is shared with a later result or with an argument)"""
+        c, op = st["case"], st["op"]
+        same = lambda a, b: a.shape == b.shape and a.dtype == b.dtype and a.tobytes() == b.tobytes()
+        if op == "lookup_id":
+            h = env.h(min(c.get("maxdepth", MAXDEPTH), 6))
+            ra, dec = np.array([p[0] for p in c["pts"]]), np.array([p[1] for p in c["pts"]])
+            r1 = h.lookup_id(ra, dec)
+            keep = r1.copy()
+            r1[:] = -1
+            r2 = h.lookup_id(ra, dec)
+            if not same(r2, keep) or np.shares_memory(r2, r1) or np.shares_memory(r2, ra):
+                return "lookup_id: after the caller overwrote the returned ids, the same call returned %s instead of %s" % (r2[:5], keep[:5])
+        elif op == "intersect":
+            h = env.h(c["depth"])
+            r1 = h.intersect(c["ra"], c["dec"], c["radius"], True)
+            keep = r1.copy()
+            r1[:] = 0
+            r2 = h.intersect(c["ra"], c["dec"], c["radius"], True)
+            if not same(r2, keep) or np.shares_memory(r2, r1):
+                return "intersect: after the caller overwrote the returned list, the same call returned something else"
+        else:
+            h = env.h(c["depth"])
+            sc = c["scale"]
+            sc = None if sc is None else (np.array(sc, dtype="f8") if isinstance(sc, list) else sc)
+            a = (c["rmin"], c["rmax"], c["nbin"], np.array(c["ra1"]), np.array(c["dec1"]), np.array(c["ra2"]), np.array(c["dec2"]))
+            id2 = h.lookup_id(a[5], a[6])
+            if int(id2.max() - id2.min()) > 600000:
+                return None
+            lo1, up1, n1 = h.bincount(*a, scale=sc, htmid2=id2)           # the returned ids of lookup_id are handed back as htmid2
+            keep = [x.copy() for x in (lo1, up1, n1, id2)]
+            lo1[:] = -1.0
+            up1[:] = -1.0
+            n1[:] = -7
+            lo2, up2, n2 = h.bincount(*a, scale=sc, htmid2=id2)
+            if not all(same(x, y) for x, y in zip((lo2, up2, n2, id2), keep)) or np.shares_memory(n2, n1):
+                return ("bincount: after the caller overwrote the returned edges/counts, the same call returned %s / %s instead of %s / %s"
+                        % (list(n2), list(lo2)[:3], list(keep[2]), list(keep[0])[:3]))
+        return None
 
     def _terms(self, c, out):
         return [self.base[st["op"]].term(st["case"], tuple(o)) for st, o in zip(c["steps"], out[1])]
@@ -1250,27 +1301,37 @@ def translation_step(ctx):
         ctx.violation("C13 translator: the modelled source no longer has the shape the model transcribes: " + gen["error"],
                       {"kind": "translation", "error": gen["error"],
                        "no_longer_checks": "Model.v / ModelR.v as a transcription of the anchored code"}, found_input=False)
-    code = "1" if gen["index"] == "cast" else "0"
-    eps = gen["epsilon"]
-    lemmas = [
-        # the bin number the code computes is the floor of the statement (C13_radbin_spec, C13_logbin are about floor)
-        ("forall q : Q, index_of %s q = radbin q" % code, "intro q. reflexivity.",
-         "bin number function read from htmc.cc (%s) = Model.radbin (floor)" % gen["index"]),
-        # the margin of the search cap only ever enlarges the cap
-        ("(0 <= %d # %d)%%Q" % (gen["pad_deg"].numerator, gen["pad_deg"].denominator), "vm_compute. discriminate.",
-         "search-cap margin read from htmc.cc (%s deg) is non-negative" % gen["pad_deg"]),
-    ]
-    lemmas.append(("RootProofs.eps_ok %s = true" % core.cfloat(float(eps)), "vm_compute. reflexivity.",
-                   "gEpsilon read from SpatialGeneral.h (%s) is finite and >= 0: hypothesis of C13_concrete_root_total" % eps))
-    res = core.coq_lemmas(os.path.join(ctx.work, "gen"), PRE + "From EsVerif.C13 Require RootProofs.\n", [(a, b) for a, b, _ in lemmas],
-                          shard=1, tag="c13gen")
-    for (st, _, what), (ok, msg) in zip(lemmas, res):
-        ctx.obligation("regenerated statement: " + what, ok, msg)
-        if not ok:
-            ctx.violation("C13 regenerated statement no longer checks: " + what,
-                          {"kind": "regenerated-statement", "statement": st, "coq": msg[-800:], "translated": {k: str(v) for k, v in gen.items()},
-                           "no_longer_checks": "C13_radbin_spec / C13_logbin applied to the bin-number function of the code under test"},
-                          found_input=False)
+    # (the statements that depend on the translated values are the tie lemmas of tie_step)
+
+
+def tie_step(ctx):
+    """(T) items: parts of the source translated into Gallina terms (c13_gen.py) and the tie lemmas `Gen.x = Model.x`, compiled on every
+    run.  A section outside the translator's subset fails closed (violation, no failing input claimed); the values of the other
+    sections are still used, and the differential below still runs with the hand model / last good values (no masking)."""
+    root = os.environ.get("VERIF_IMPL")
+
+    def rd(*p):
+        try:
+            return open(os.path.join(root, *p)).read()
+        except OSError as e:
+            raise tr.TranslateError("cannot read %s: %s" % (os.path.join(*p), e))
+    files, values, errors = gen_terms.generate(root, rd)
+    for k in ("pad_deg", "index", "ra2_typo"):
+        if k in values:
+            GEN[k] = values[k]
+    ctx.obligation("translation into Gallina terms (validation of lookup_id/bincount, vertex/root/child tables, isInside, buildlevel, "
+                   "gEpsilon, bin-number expression, search-cap expression)", not errors, "; ".join(errors))
+    for e in errors:
+        ctx.violation("C13 term translator: source outside the translated subset: " + e,
+                      {"kind": "translation", "error": e, "no_longer_checks": "tie lemmas Gen.x = Model.x of this section"}, found_input=False)
+    for k, (name, pre, ties) in enumerate(files):
+        res = core.coq_lemmas(os.path.join(ctx.work, "tie%d" % k), pre, [(a, b) for a, b, _ in ties], shard=len(ties), tag="c13tie%d" % k)
+        for (st, _, what), (ok, msg) in zip(ties, res):
+            ctx.obligation("tie: " + what, ok, msg)
+            if not ok:
+                ctx.violation("C13 tie no longer checks: " + what,
+                              {"kind": "tie", "section": name, "statement": st, "coq": msg[-800:],
+                               "no_longer_checks": "Gen (translated from the source) = Model for: " + what}, found_input=False)
 
 
 def run(ctx, replay=None):
@@ -1290,6 +1351,7 @@ def run(ctx, replay=None):
         ctx.violation("a discrete C13 theorem depends on an axiom: %s" % bad[:3], {"kind": "assumptions", "bad": bad},
                       found_input=False)
     translation_step(ctx)
+    tie_step(ctx)
     differential(ctx, PRE, ENTRIES, replay)
     if replay is None:
         real_lemmas(ctx)
